@@ -167,22 +167,22 @@ pub fn conc_campaigns(property: &str) -> Vec<ConcCampaign> {
             ConcCampaign { name: "conc-evict-vs-sweep", profile: EvictVsSweep, cases_quick: 400, cases_thorough: 6000, nt: |s| s.eviction_loop_delayed && s.swept_during_run,
             rule: "small cache (60-150) full of short-lived TTL keys, heavy puts needing several evictions, the eviction loop delayed 100-800 us per step while a clock thread makes the sweeper collect keys concurrently; monitor on total_weight_used() plus bound and bijection at quiescence; non-trivial = the eviction loop ran AND the sweeper collected at least one key during the run" }],
         "C05" => vec![
-            ConcCampaign { name: "sched-controlled", profile: Sched, cases_quick: 1500, cases_thorough: 30_000, nt: |s| s.sched_steps >= 15 && s.sched_threads >= 3,
+            ConcCampaign { name: "sched-controlled", profile: Sched, cases_quick: 1500, cases_thorough: 15_000, nt: |s| s.sched_steps >= 15 && s.sched_threads >= 3,
             rule: "tiny programs (2-3 client threads x 2-7 operations on 1-2 keys, TTLs, clock moves as program steps) under the controlled scheduler: at every schedule point only the highest-priority parked thread (clients, command worker, sweeper, consumer) runs, priorities and priority change points are generated (PCT style), a thread that does not reach its next point within 0.4 ms is taken to be blocked or idle; all history checkers and quiescence invariants; non-trivial = >= 15 scheduling steps over >= 3 threads" },
             ConcCampaign { name: "conc-quiescence", profile: General, cases_quick: 800, cases_thorough: 6000, nt: |s| s.unawaited_same_key,
             rule: "generated concurrent programs racing the same keys; quiescence is constructed (all acknowledgements awaited, clock frozen, two sweeps waited for) and the physical snapshot must be a bijection store ids <-> charged ids with a matching total; non-trivial = two writes of one key where the second was issued before the first was acknowledged" },
             ConcCampaign { name: "conc-evict-vs-sweep", profile: EvictVsSweep, cases_quick: 400, cases_thorough: 6000, nt: |s| s.eviction_loop_delayed && s.swept_during_run,
             rule: "small cache of short-lived TTL keys, heavy puts, weight-changing upserts on keys that expire, eviction loop and weight-update critical sections delayed while a clock thread drives the sweeper; bijection and total at quiescence; non-trivial = the eviction loop ran AND the sweeper collected keys during the run" },
-            ConcCampaign { name: "conc-sweep-race", profile: SweepRace, cases_quick: 400, cases_thorough: 6000, nt: |s| s.swept_during_run && s.ttl_writes >= 2 && s.threads >= 2,
+            ConcCampaign { name: "conc-sweep-race", profile: SweepRace, cases_quick: 400, cases_thorough: 3000, nt: |s| s.swept_during_run && s.ttl_writes >= 2 && s.threads >= 2,
             rule: "put-with-TTL / TTL change / delete / re-put cycles on three keys by 2-5 threads while the sweeper is delayed between releasing a key's weight and removing its store entry (see C10); bijection and totals at quiescence; non-trivial = the sweeper collected keys during the run and >= 2 TTL writes were accepted" }],
         "C02" => vec![ConcCampaign { name: "conc-reads", profile: General, cases_quick: 1200, cases_thorough: 10_000, nt: |s| s.overlapping_read_write && s.read_after_completed_overwrite,
             rule: "[general] generated concurrent programs, every write carries a unique token (key, thread, op); all 7 read variants; pressure in 3 of 4 configs; hash functions default/identity/constant/mod 2; history checker: value decodes to the key, was written by a write that began before the read ended and was not refused, and no overwrite/delete ordered after that write had completed before the read began; non-trivial = a read overlapped a write of its key AND a value-returning read followed a completed write of that key" },
-            ConcCampaign { name: "sched-controlled", profile: Sched, cases_quick: 1500, cases_thorough: 30_000, nt: |s| s.sched_steps >= 15 && s.sched_threads >= 3,
+            ConcCampaign { name: "sched-controlled", profile: Sched, cases_quick: 1500, cases_thorough: 15_000, nt: |s| s.sched_steps >= 15 && s.sched_threads >= 3,
             rule: "tiny programs (2-3 client threads x 2-7 operations on 1-2 keys, TTLs, clock moves as program steps) under the controlled scheduler: at every schedule point only the highest-priority parked thread (clients, command worker, sweeper, consumer) runs, priorities and priority change points are generated (PCT style), a thread that does not reach its next point within 0.4 ms is taken to be blocked or idle; all history checkers and quiescence invariants; non-trivial = >= 15 scheduling steps over >= 3 threads" },
             ConcCampaign { name: "conc-delete-window", profile: DeleteWindow, cases_quick: 300, cases_thorough: 4000, nt: |s| s.read_between_delete_and_ack && s.guard_held_during_delete,
             rule: "deleter / readers / guard holders on the same keys with a slowed command worker (see C04); non-trivial = a read between delete() returning and its acknowledgement AND a guard held when delete() was called" }],
         "C04" => vec![
-            ConcCampaign { name: "sched-controlled", profile: Sched, cases_quick: 1500, cases_thorough: 30_000, nt: |s| s.sched_steps >= 15 && s.sched_threads >= 3,
+            ConcCampaign { name: "sched-controlled", profile: Sched, cases_quick: 1500, cases_thorough: 15_000, nt: |s| s.sched_steps >= 15 && s.sched_threads >= 3,
             rule: "tiny programs (2-3 client threads x 2-7 operations on 1-2 keys, TTLs, clock moves as program steps) under the controlled scheduler: at every schedule point only the highest-priority parked thread (clients, command worker, sweeper, consumer) runs, priorities and priority change points are generated (PCT style), a thread that does not reach its next point within 0.4 ms is taken to be blocked or idle; all history checkers and quiescence invariants; non-trivial = >= 15 scheduling steps over >= 3 threads" },
             ConcCampaign { name: "conc-delete-window", profile: DeleteWindow, cases_quick: 500, cases_thorough: 6000, nt: |s| s.read_between_delete_and_ack && s.guard_held_during_delete,
             rule: "one deleter cycling awaited put / unawaited delete / immediate reads / await on 3 keys of one store shard region, 1-5 threads reading and holding get_ref guards on the same keys, command worker delayed 30-500 us per command so the window between delete() returning and its acknowledgement is wide; history checker: no read that starts after delete() returned may return the deleted value; non-trivial = a read of the key fell between delete() returning and its acknowledgement AND a get_ref guard was held when delete() was called" },
@@ -198,11 +198,11 @@ pub fn conc_campaigns(property: &str) -> Vec<ConcCampaign> {
         "C09" => vec![ConcCampaign { name: "conc-expiry", profile: General, cases_quick: 500, cases_thorough: 6000, nt: |s| s.ttl_writes >= 1 && s.sweeps_during_run && s.read_after_completed_overwrite,
             rule: "generated concurrent programs with TTL writes and a clock thread; history checker: a returned value whose write carried a TTL must not be served once the clock is certainly past the latest possible deadline of that write (clock values bracketed by stamps); non-trivial = an accepted TTL write, a clock thread, and a value-returning read after a completed write" }],
         "C10" => vec![
-            ConcCampaign { name: "sched-controlled", profile: Sched, cases_quick: 1500, cases_thorough: 30_000, nt: |s| s.sched_steps >= 15 && s.sched_threads >= 3,
+            ConcCampaign { name: "sched-controlled", profile: Sched, cases_quick: 1500, cases_thorough: 15_000, nt: |s| s.sched_steps >= 15 && s.sched_threads >= 3,
             rule: "tiny programs (2-3 client threads x 2-7 operations on 1-2 keys, TTLs, clock moves as program steps) under the controlled scheduler: at every schedule point only the highest-priority parked thread (clients, command worker, sweeper, consumer) runs, priorities and priority change points are generated (PCT style), a thread that does not reach its next point within 0.4 ms is taken to be blocked or idle; all history checkers and quiescence invariants; non-trivial = >= 15 scheduling steps over >= 3 threads" },
             ConcCampaign { name: "conc-sweeps", profile: EvictVsSweep, cases_quick: 400, cases_thorough: 6000, nt: |s| s.rotated && s.swept_during_run && s.ttl_writes >= 1,
             rule: "small cache of short-lived TTL keys, writers, evictions and a clock thread driving sweeps concurrently with worker commands; at quiescence the harness performs one complete sweep of every shard: no key whose deadline lay before that rotation may remain, every held TTL key must be indexed under its current deadline and no key without TTL may be indexed; non-trivial = the final rotation completed, the sweeper collected keys during the run and a TTL write was accepted" },
-            ConcCampaign { name: "conc-sweep-race", profile: SweepRace, cases_quick: 400, cases_thorough: 6000, nt: |s| s.swept_during_run && s.ttl_writes >= 2 && s.threads >= 2,
+            ConcCampaign { name: "conc-sweep-race", profile: SweepRace, cases_quick: 400, cases_thorough: 3000, nt: |s| s.swept_during_run && s.ttl_writes >= 2 && s.threads >= 2,
             rule: "2-5 threads cycle put-with-TTL / TTL change or removal / delete / re-put / read on three keys while a clock thread keeps expiring them and the sweeper is delayed 0.2-2.5 ms between releasing a key's weight and removing its store entry; at quiescence: bijection store ids <-> charges, totals, expiry index vs held entries, nothing expired left after a full rotation, counters; reads are checked for staleness; non-trivial = the sweeper collected keys during the run and >= 2 TTL writes were accepted" },
         ],
         "C16" => vec![ConcCampaign { name: "conc-counters", profile: General, cases_quick: 500, cases_thorough: 6000, nt: |s| s.threads >= 2 && s.evicted_or_rejected,
@@ -210,7 +210,7 @@ pub fn conc_campaigns(property: &str) -> Vec<ConcCampaign> {
         "C17" => vec![ConcCampaign { name: "conc-no-panic", profile: Deadlock, cases_quick: 400, cases_thorough: 6000, nt: |s| s.threads >= 3 && s.delays > 0,
             rule: "generated concurrent programs with maximal sharing; no call may panic, no background thread may die (panic hook on every thread), worker / consumer / sweeper must pass a liveness probe at the end; non-trivial = >= 3 threads with injected delays" }],
         "C11" => vec![
-            ConcCampaign { name: "sched-controlled", profile: Sched, cases_quick: 1500, cases_thorough: 30_000, nt: |s| s.sched_steps >= 15 && s.sched_threads >= 3,
+            ConcCampaign { name: "sched-controlled", profile: Sched, cases_quick: 1500, cases_thorough: 15_000, nt: |s| s.sched_steps >= 15 && s.sched_threads >= 3,
             rule: "tiny programs (2-3 client threads x 2-7 operations on 1-2 keys, TTLs, clock moves as program steps) under the controlled scheduler: at every schedule point only the highest-priority parked thread (clients, command worker, sweeper, consumer) runs, priorities and priority change points are generated (PCT style), a thread that does not reach its next point within 0.4 ms is taken to be blocked or idle; all history checkers and quiescence invariants; non-trivial = >= 15 scheduling steps over >= 3 threads" },
             ConcCampaign { name: "conc-bursts", profile: Bursts, cases_quick: 800, cases_thorough: 8000, nt: |s| s.queue_full_sends && s.concurrent_in_flight,
             rule: "generated bursts of unawaited writes from 1-8 threads, queue size 1/2/3/8, worker and senders delayed by injection; trace checker: every queued command executed exactly once, executions never overlap, per-thread and real-time cross-thread order preserved, statuses match; when the last acknowledgement of a thread completes all earlier ones are complete; non-trivial = a send waited on a full queue AND two threads had commands in flight at once" }],
@@ -223,7 +223,7 @@ pub fn conc_campaigns(property: &str) -> Vec<ConcCampaign> {
         "C15" => vec![ConcCampaign { name: "conc-access-accounting", profile: Reads, cases_quick: 800, cases_thorough: 6000, nt: |s| s.threads >= 2 && s.handovers >= 1,
             rule: "generated read workloads from 1-16 threads over all read variants, pool in {1,2,3,32}, buffer in {1,2,3,64}, consumer free / stopped / stopped-then-released via the gate hook; at quiescence hits == buffered + AccessAdded + AccessDropped etc.; non-trivial = >= 2 reader threads and >= 1 buffer hand-over" }],
         "C18" => vec![
-            ConcCampaign { name: "sched-controlled", profile: Sched, cases_quick: 1500, cases_thorough: 30_000, nt: |s| s.sched_steps >= 15 && s.sched_threads >= 3,
+            ConcCampaign { name: "sched-controlled", profile: Sched, cases_quick: 1500, cases_thorough: 15_000, nt: |s| s.sched_steps >= 15 && s.sched_threads >= 3,
             rule: "tiny programs (2-3 client threads x 2-7 operations on 1-2 keys, TTLs, clock moves as program steps) under the controlled scheduler: at every schedule point only the highest-priority parked thread (clients, command worker, sweeper, consumer) runs, priorities and priority change points are generated (PCT style), a thread that does not reach its next point within 0.4 ms is taken to be blocked or idle; all history checkers and quiescence invariants; non-trivial = >= 15 scheduling steps over >= 3 threads" },
             ConcCampaign { name: "conc-deadlock", profile: Deadlock, cases_quick: 900, cases_thorough: 10_000, nt: |s| s.threads >= 3 && s.distinct_sites_delayed >= 2 && s.sweeps_during_run,
             rule: "generated concurrent programs with maximal lock sharing (2 shards, queue 1, pool 1, buffer 1, 1-3 keys, up to 12 threads, TTL upserts, evictions, sweeps, get_ref guards held without call-back) and delay injection after lock acquisition sites; a case is blocked when no call returned and no acknowledgement completed for the stall window while the threads consumed no CPU; non-trivial = >= 3 threads, >= 2 distinct sites delayed, clock thread driving sweeps" }],
